@@ -134,6 +134,23 @@ Join(a, m, p, v) ==
     /\ pos' = IF Spatial(m) THEN Ext(pos, a, p) ELSE pos
     /\ UNCHANGED <<world, agents, dev>>
 
+\* index of the first component of a that is already listed (0 = none)
+FirstListed(P, a, cs) == LET S == {i \in 1..Len(cs) : Listed(P, a, cs[i])}
+                         IN IF S = {} THEN 0 ELSE CHOOSE i \in S : \A j \in S : i <= j
+\* Environment.add_agent of an agent one of whose components was registered by hand before (low-level call on a non-resident):
+\* the agent is entered, the components before the listed one are registered, then register_component raises KeyError.
+\* In a spatial world the position component is never added (the base add raises first).
+JoinHalfway(a, m) ==               \* KeyError
+    /\ a \in DOMAIN agents /\ ~Resident(a) /\ m \in DOMAIN world
+    /\ ~IdTaken(m, IdOf(a))
+    /\ LET cs == agents[a].comps
+           k  == FirstListed(pool[m], a, cs)
+       IN /\ k # 0
+          /\ env' = [env EXCEPT ![m] = Append(@, a)]
+          /\ pool' = [pool EXCEPT ![m] = RegAll(@, a, SubSeq(cs, 1, k - 1))]
+    /\ dev' = dev \cup {"RAW"}
+    /\ UNCHANGED <<world, agents, pos>>
+
 JoinRejectedDup(a, m) ==           \* DuplicateAgentError
     /\ a \in DOMAIN agents /\ m \in DOMAIN world /\ IdTaken(m, IdOf(a))
     /\ UNCHANGED vars
@@ -173,7 +190,7 @@ LeaveIsF2(m, i) == LET a == CHOOSE b \in Range(env[m]) : IdOf(b) = i
 LeaveZombie(m, i) ==               \* ComponentNotFoundError
     /\ m \in DOMAIN world /\ IdTaken(m, i) /\ Spatial(m)
     /\ (CHOOSE b \in Range(env[m]) : IdOf(b) = i) \notin DOMAIN pos
-    /\ "F2" \in dev
+    /\ dev # {}                     \* after F2, or after a join that stopped half-way (low-level calls)
     /\ UNCHANGED vars
 
 LeaveRejected(m, i) ==             \* AgentNotFoundError
@@ -373,6 +390,7 @@ OfferMove(a, d) == Move(a, d, <<0, 0, 0>>)
 OfferRegisterRaw(a, T) ==
     /\ "RAW" \in Deviations /\ a \in DOMAIN agents /\ HasType(a, T)
     /\ RegisterRaw(agents[a].model, a, T, SerialIn(agents, a, T))
+OfferJoinHalfway(a) == "RAW" \in Deviations /\ a \in DOMAIN agents /\ JoinHalfway(a, agents[a].model)
 OfferDeregisterRaw(a, T) ==
     /\ "RAW" \in Deviations /\ a \in DOMAIN agents /\ HasType(a, T)
     /\ DeregisterRaw(agents[a].model, a, T, SerialIn(agents, a, T))
@@ -392,6 +410,7 @@ Next ==
     \/ \E a \in AgentObjs, T \in Types, v \in Variants : RegisterManual(a, T, v)
     \/ \E a \in AgentObjs, T \in Types : RegisterRejected(a, T)
     \/ \E a \in AgentObjs, T \in Types : OfferRegisterRaw(a, T)
+    \/ \E a \in AgentObjs : OfferJoinHalfway(a)
     \/ \E a \in AgentObjs, T \in Types : OfferDeregisterRaw(a, T)
     \/ \E a \in AgentObjs, d \in Triple(Deltas) : OfferMove(a, d)
     \/ \E a \in AgentObjs : MoveRejected(a)
